@@ -1,3 +1,112 @@
-From Coq Require Import List ZArith.
-From SAV.orm Require Import Version.
-Example c44_placeholder : init [] = init []. Proof. reflexivity. Qed.
+(* C44 - version counters prevent lost updates.
+   Model: coq/orm/Version.v - any number of Sessions (index i), any history of get / set / delete / flush / commit /
+   rollback operations interleaved in any order on one reference database; [reach ... r0 s] = s is reached from the
+   initial rows r0 by some history.  Arguments: server (server-side version generation), sane_multi
+   (dialect.supports_sane_multi_rowcount), eoc (expire_on_commit per session), g (the version generator, any strictly
+   increasing function); dialect.supports_sane_rowcount = true except in the refutation at the end. *)
+From Coq Require Import List ZArith NArith Bool Arith.
+Import ListNotations.
+From SAV.orm Require Import Version VersionInv VersionTheorems VersionWitness VersionMain.
+Open Scope Z_scope.
+
+(* clause 1.  Session i holds an instance it is about to UPDATE (stale_upd) or DELETE (stale_del) whose loaded version
+   is not the version of the current row (or the row is gone).  Then flush / commit returns an error - StaleDataError,
+   unless the database itself refuses the write first ("database is locked") - and nothing is changed: committed rows
+   and change counter are as before, session i holds no write transaction afterwards (nothing of its transaction can
+   be committed later), its identity map is expired, every other session and its transaction are untouched.
+   GUARDED for DELETE: supports_sane_multi_rowcount, or a single deleted object in the flush (see the refutation). *)
+Theorem c44_stale_flush_fails_and_changes_nothing_guarded :
+  forall server sane_multi eoc g, (forall v, v < g v) -> forall r0 s i o,
+  reach server true sane_multi eoc g r0 s -> is_flush o ->
+  stale_upd s i \/ (stale_del s i /\ (sane_multi = true \/ n_dels s i = 1%nat)) ->
+  let s' := fst (step server true sane_multi eoc g i o s) in
+  let r := snd (step server true sane_multi eoc g i o s) in
+  (r = RStale \/ r = RBusy) /\
+  (begin_write (sdb s) i (snap (sget i (sss s))) <> None -> r = RStale) /\
+  com (sdb s') = com (sdb s) /\ gen (sdb s') = gen (sdb s) /\
+  writer_is (sdb s') i = None /\ sget i (sss s') = empty_sess /\
+  forall j, j <> i -> sget j (sss s') = sget j (sss s) /\ writer_is (sdb s') j = writer_is (sdb s) j.
+Proof. intros server sane_multi eoc g Hg r0. exact (main_stale server sane_multi eoc g Hg r0). Qed.
+Print Assumptions c44_stale_flush_fails_and_changes_nothing_guarded.
+
+(* the defect region: dialect without supports_sane_multi_rowcount (psycopg2, asyncpg, pyodbc, mysql base), two
+   objects deleted in one flush, one of them stale: the commit succeeds and the stale row survives *)
+Theorem c44_stale_multi_delete_refuted :
+  exists s i, reach false true false no_eoc Z.succ rows12 s /\ stale_del s i /\ n_dels s i = 2%nat /\
+    snd (step false true false no_eoc Z.succ i Commit s) = ROk /\
+    lookup 1 (com (sdb (fst (step false true false no_eoc Z.succ i Commit s)))) = Some {| rx := 5; rv := 2 |}.
+Proof. exact main_multi_delete_refuted. Qed.
+Print Assumptions c44_stale_multi_delete_refuted.
+
+(* clause 2, history form.  Between any two points of any history: no committed row is re-created, its version does
+   not decrease, and an unchanged version means unchanged content - i.e. every committed change of a row increased
+   its version *)
+Theorem c44_version_strictly_increases :
+  forall server sane_multi eoc g, (forall v, v < g v) -> forall r0 s l,
+  reach server true sane_multi eoc g r0 s ->
+  forall k b, lookup k (com (sdb (run server true sane_multi eoc g l s))) = Some b ->
+  exists a, lookup k (com (sdb s)) = Some a /\ rv a <= rv b /\ (rv a = rv b -> rx a = rx b).
+Proof. intros server sane_multi eoc g Hg r0. exact (main_monotone server sane_multi eoc g Hg r0). Qed.
+Print Assumptions c44_version_strictly_increases.
+
+(* clause 3 (and clause 2, step form).  A successful flush / commit of session i: every instance it UPDATEd had loaded
+   exactly the then-current row (content ex e and version ev e), and the row afterwards carries the pending value and
+   version g(loaded) > loaded; every instance it DELETEd (guard as above) had loaded exactly the then-current row,
+   which is gone afterwards.  [cur_rows] = the rows session i's statements work on (its open write transaction, else
+   the committed rows); [after_rows] = the same after a flush, the committed rows after a commit *)
+Theorem c44_no_lost_update :
+  forall server sane_multi eoc g, (forall v, v < g v) -> forall r0 s i o,
+  reach server true sane_multi eoc g r0 s -> is_flush o ->
+  snd (step server true sane_multi eoc g i o s) = ROk ->
+  forall k e, In (k, e) (sents (sget i (sss s))) ->
+  (is_upd e = true ->
+     lookup k (cur_rows (sdb s) i) = Some {| rx := ex e; rv := ev e |} /\
+     lookup k (after_rows o (fst (step server true sane_multi eoc g i o s)) i) =
+       Some {| rx := pend_of e; rv := g (ev e) |} /\ ev e < g (ev e)) /\
+  (edel e = true -> (sane_multi = true \/ n_dels s i = 1%nat) ->
+     lookup k (cur_rows (sdb s) i) = Some {| rx := ex e; rv := ev e |} /\
+     lookup k (after_rows o (fst (step server true sane_multi eoc g i o s)) i) = None).
+Proof. intros server sane_multi eoc g Hg r0. exact (main_no_lost_update server sane_multi eoc g Hg r0). Qed.
+Print Assumptions c44_no_lost_update.
+
+(* an operation of one session never touches what another session holds *)
+Theorem c44_other_sessions_untouched :
+  forall server sane_multi eoc g, (forall v, v < g v) -> forall r0 s i o j,
+  reach server true sane_multi eoc g r0 s -> j <> i ->
+  sget j (sss (fst (step server true sane_multi eoc g i o s))) = sget j (sss s).
+Proof. intros server sane_multi eoc g Hg r0. exact (main_other_sessions server sane_multi eoc g Hg r0). Qed.
+Print Assumptions c44_other_sessions_untouched.
+
+(* the invariant behind the three clauses holds in every reachable state *)
+Theorem c44_invariant :
+  forall server sane_multi eoc g, (forall v, v < g v) -> forall r0 s,
+  reach server true sane_multi eoc g r0 s -> Inv s.
+Proof. intros server sane_multi eoc g Hg. exact (VersionStep.reach_inv server sane_multi eoc g Hg). Qed.
+Print Assumptions c44_invariant.
+
+(* why the property is conditional on supports_sane_rowcount: without it the stale UPDATE matches nothing, nothing is
+   verified (the implementation warns) and the flush succeeds *)
+Theorem c44_no_sane_rowcount_refuted :
+  exists s i, reach false false false no_eoc Z.succ rows12 s /\ stale_upd s i /\
+    snd (step false false false no_eoc Z.succ i Commit s) = ROk.
+Proof. exact main_no_sane_rowcount_refuted. Qed.
+Print Assumptions c44_no_sane_rowcount_refuted.
+
+(* non-vacuity: reachable states satisfying the hypotheses, with each outcome *)
+Example c44_ex_stale_update : stale_upd (st_upd true true) 0 /\
+  snd (step false true true no_eoc Z.succ 0 Commit (st_upd true true)) = RStale.
+Proof. split; [apply st_upd_stale|exact stale_update_fails]. Qed.
+Example c44_ex_stale_delete_checked : stale_del (st_del true true) 0 /\
+  snd (step false true true no_eoc Z.succ 0 Commit (st_del true true)) = RStale.
+Proof. split; [apply st_del_stale|apply multi_delete_checked]. Qed.
+Example c44_ex_database_refuses :
+  snd (step false true true no_eoc Z.succ 0 Commit (run false true true no_eoc Z.succ w_busy (init rows12))) = RBusy.
+Proof. exact busy_example. Qed.
+Example c44_ex_successful_update :
+  let s := run false true true no_eoc Z.succ [(0%nat, SetX 1 7)] (init rows12) in
+  snd (step false true true no_eoc Z.succ 0 Commit s) = ROk /\
+  In (1, {| ex := 0; ev := 1; epend := Some 7; edel := false |}) (sents (sget 0 (sss s))) /\
+  com (sdb (fst (step false true true no_eoc Z.succ 0 Commit s))) = [(1, {| rx := 7; rv := 2 |}); (2, {| rx := 0; rv := 1 |})].
+Proof. exact ok_example. Qed.
+Example c44_ex_generator : forall v, v < Z.succ v.
+Proof. exact succ_increasing. Qed.
